@@ -150,6 +150,9 @@ impl ISocket for RepSocket {
       }
     }
 
+    #[cfg(rzmq_verif)]
+    crate::verif::apoint("rep.recv.after_check").await;
+
     let rcvtimeo_opt = self.core_state_read().options.rcvtimeo;
     let (peer_info, mut payload_frames) = self.recv_complete_request(rcvtimeo_opt).await?;
     *self.state.lock() = RepState::ReceivedRequest(peer_info);
@@ -235,6 +238,9 @@ impl ISocket for RepSocket {
         return Err(ZmqError::InvalidState("REP socket must call send() before receiving again"));
       }
     }
+
+    #[cfg(rzmq_verif)]
+    crate::verif::apoint("rep.recv.after_check").await;
 
     let rcvtimeo_opt = self.core_state_read().options.rcvtimeo;
     let (peer_info, payload_frames) = self.recv_complete_request(rcvtimeo_opt).await?;
